@@ -170,3 +170,30 @@ def library_ir():
         if rc != 0:
             raise RuntimeError('IR generation failed: %s\n%s' % (j[-3], err))
     return outs
+
+
+def build_cli():
+    """gm2calc.x of the working tree (linked against the scratch build of the library)"""
+    lib = build_library()
+    out = os.path.join(scratch(), 'gm2calc_verif.x')
+    if os.path.exists(out):
+        return out
+    cmd = ['g++', '-std=c++14', '-O1', '-DNDEBUG', '-w'] + include_flags() + \
+        [os.path.join(REPO, 'src', 'gm2calc.cpp'), lib, '-Wl,-rpath,' + os.path.dirname(lib), '-o', out]
+    rc, err = _run(cmd)
+    if rc != 0:
+        raise RuntimeError('CLI build failed:\n' + err)
+    return out
+
+
+def build_tool(src, name):
+    lib = build_library()
+    out = os.path.join(scratch(), name)
+    if os.path.exists(out):
+        return out
+    cmd = ['g++', '-std=c++14', '-O1', '-DNDEBUG', '-w'] + include_flags() + \
+        [src, lib, '-Wl,-rpath,' + os.path.dirname(lib), '-o', out]
+    rc, err = _run(cmd)
+    if rc != 0:
+        raise RuntimeError('tool build failed:\n' + err)
+    return out
